@@ -400,6 +400,20 @@ def gen_op(rng, st):
     for _ in range(rng.randrange(0, 2)):
         ops.append(_hist(rng))
     ops.append({'op': 'write', 'cid': cid, 'spec': spec, 'file': 'w%d.%s' % (cid, fmt)})
+    if rng.random() < 0.35:
+        # history: another file of the same layout (same grid and counts, species
+        # permuted, other start hour) is written and read in between
+        sib = dict(spec)
+        if 'species' in sib:
+            sp = list(sib['species'])
+            rng.shuffle(sp)
+            if len(sp) > 1 and sp == sib['species']:
+                sp = sp[1:] + sp[:1]
+            sib['species'] = sp
+        sib['stime'] = float(rng.choice([0, 3, 7]))
+        sib['sdate'] = 2002154
+        ops.append({'op': 'sibling', 'spec': sib, 'file': 'sib%d.%s' % (cid, fmt),
+                    'order': rng.choice(['before', 'after'])})
     ops.append({'op': 'judge', 'cid': cid, 'which': 'ack'})
     sched = rng.choice(SCHEDULES)
     ops.append({'op': 'handle', 'cid': cid, 'do': sched})
@@ -530,6 +544,29 @@ def apply(st, op):
                             'truth': truth, 'life': 'retained',
                             'size_ack': os.path.getsize(ack)}
         obs['size'] = st.wr[op['cid']]['size_ack']
+    elif o == 'sibling':
+        spec = op['spec']
+        fmt = spec['fmt']
+        try:
+            truth = truth_of(spec)
+            f = build_source(spec, truth)
+        except BaseException as e:
+            raise HarnessError('cannot build sibling source: %r' % (e,))
+        path = w.path(op['file'])
+        try:
+            h = library_write(f, path, fmt, spec)
+            h.close()
+            got = canon_from_library(library_read(path, fmt, spec), fmt)
+        except BaseException as e:
+            return {'note': 'sibling raised ' + type(e).__name__}
+        w.fault('sibling_file_written_and_read')
+        st.stats['evaluations'] += 1
+        d = compare(truth, got, 'library reader on a second file of the same layout')
+        if d:
+            _raise(st, 'C08', 'round-trip-differs',
+                   '%s file (%s) written and read after another file of the same layout: %s' % (
+                       fmt, _desc(spec), '; '.join(x[1] for x in d[:3])),
+                   {'format': fmt, 'field': d[0][0], 'second_file': True})
     elif o == 'judge':
         wr = st.wr.get(op['cid'])
         if wr is None:
